@@ -281,7 +281,7 @@ def run_case(sh, case):
 
 
 def run(sh):
-    n = 3000 if sh.tier == 'quick' else 80000
+    n = 3000 if sh.tier == 'quick' else 800000
     pol = ['prng', 'fifo', 'lifo', 'const']
     for i in sh.share(n):
         rng = random.Random(core.stable_int(sh.seed, 'C18', i))
